@@ -303,30 +303,30 @@ Definition cursor_lower_bound (st : state) (k : key) : (list cell * N * nat) + e
   end.
 
 (* the callers' loop `while cur.is_valid() { push(key, payload); if !cur.advance() { break } }`:
-   inside one leaf it yields the cells from `slot` on; at the end of a leaf `advance` loads the
-   right sibling and returns its is_valid() — an empty sibling ends the scan *)
+   inside one leaf it yields the cells from `slot` on; at the end of a leaf `advance` follows the
+   right-sibling chain to the next non-empty leaf (empty leaves are skipped) or to the end *)
 Fixpoint scan_leaves (fuel : nat) (h : heap) (cells : list cell) (rsib : N) (slot : nat) : list cell + err :=
-  if Nat.ltb slot (length cells) then
-    let out := skipn slot cells in
-    if rsib =? 0 then inl out
-    else
-      match fuel with
-      | O => inr EFuel
-      | S f =>
-          match hget h rsib with
-          | Some (Leaf c' r' _) =>
-              match scan_leaves f h c' r' O with
-              | inl more => inl (out ++ more)
-              | inr e => inr e
-              end
-          | _ => inr EBadPage
-          end
-      end
-  else inl [].
+  let out := skipn slot cells in
+  if rsib =? 0 then inl out
+  else
+    match fuel with
+    | O => inr EFuel
+    | S f =>
+        match hget h rsib with
+        | Some (Leaf c' r' _) =>
+            match scan_leaves f h c' r' O with
+            | inl more => inl (out ++ more)
+            | inr e => inr e
+            end
+        | _ => inr EBadPage
+        end
+    end.
 
 Definition scan_from (st : state) (k : key) : list cell + err :=
   match cursor_lower_bound st k with
-  | inl (cells, rsib, slot) => scan_leaves (page_fuel st) (st_heap st) cells rsib slot
+  | inl (cells, rsib, slot) =>
+      (* is_valid() of the positioned cursor *)
+      if Nat.ltb slot (length cells) then scan_leaves (page_fuel st) (st_heap st) cells rsib slot else inl []
   | inr e => inr e
   end.
 
@@ -387,36 +387,3 @@ Definition dump_page (h : heap) (p : N) : dpage :=
 Definition dump (st : state) : list dpage :=
   map (fun i => dump_page (st_heap st) (bt_first_data_page + N.of_nat i))
       (seq 0 (N.to_nat (st_next st - bt_first_data_page))).
-
-(* leftmost leaf, then the sibling chain: is there an empty leaf with a non-empty leaf after it? *)
-Fixpoint leftmost_leaf (fuel : nat) (h : heap) (p : N) : option N :=
-  match fuel with
-  | O => None
-  | S f =>
-      match hget h p with
-      | Some (Leaf _ _ _) => Some p
-      | Some (Internal lm _) => leftmost_leaf f h lm
-      | None => None
-      end
-  end.
-(* seen_ne: a non-empty leaf was passed; seen_gap: an empty leaf after a non-empty one was passed *)
-Fixpoint chain_gap (fuel : nat) (h : heap) (p : N) (seen_ne seen_gap : bool) : bool :=
-  match fuel with
-  | O => false
-  | S f =>
-      match hget h p with
-      | Some (Leaf c r _) =>
-          let nonempty := negb (Nat.eqb (length c) 0) in
-          if seen_gap && nonempty then true
-          else if r =? 0 then false
-          else chain_gap f h r (seen_ne || nonempty) (seen_gap || (seen_ne && negb nonempty))
-      | _ => false
-      end
-  end.
-(* a non-empty leaf, later an empty one, later a non-empty one: `advance` stops at the empty leaf
-   (cursor_lower_bound skips empty leaves, advance does not) *)
-Definition has_inner_empty_leaf (st : state) : bool :=
-  match leftmost_leaf depth_fuel (st_heap st) (st_root st) with
-  | Some p => chain_gap (page_fuel st) (st_heap st) p false false
-  | None => false
-  end.
